@@ -92,9 +92,58 @@ def src(node):
         return "<%s>" % type(node).__name__
 
 
+def _is_private(n):
+    return n.startswith("_") and not n.startswith("__")
+
+
+def private_members(tree):
+    """{'' (module) | class name: {'functions'|'methods': [...],
+    'globals'|'fields': [...]}}: private names in definition order."""
+    out = {"": {"functions": [], "globals": []}}
+    for st in tree.body:
+        if isinstance(st, (ast.FunctionDef, ast.AsyncFunctionDef)) \
+                and _is_private(st.name):
+            out[""]["functions"].append(st.name)
+        elif isinstance(st, ast.Assign):
+            for t in st.targets:
+                if isinstance(t, ast.Name) and _is_private(t.id) \
+                        and t.id not in out[""]["globals"]:
+                    out[""]["globals"].append(t.id)
+        elif isinstance(st, ast.ClassDef):
+            d = {"methods": [], "fields": []}
+            for b in st.body:
+                if isinstance(b, (ast.FunctionDef, ast.AsyncFunctionDef)):
+                    if _is_private(b.name):
+                        d["methods"].append(b.name)
+                    selfn = b.args.args[0].arg if b.args.args else None
+                    for n in ast.walk(b):
+                        tgts = []
+                        if isinstance(n, ast.Assign):
+                            tgts = n.targets
+                        elif isinstance(n, (ast.AugAssign, ast.AnnAssign)):
+                            tgts = [n.target]
+                        for t in tgts:
+                            for x in ast.walk(t):
+                                if isinstance(x, ast.Attribute) \
+                                        and isinstance(x.value, ast.Name) \
+                                        and x.value.id == selfn \
+                                        and _is_private(x.attr) \
+                                        and x.attr not in d["fields"]:
+                                    d["fields"].append(x.attr)
+                elif isinstance(b, ast.Assign):
+                    for t in b.targets:
+                        if isinstance(t, ast.Name) and _is_private(t.id) \
+                                and t.id not in d["fields"]:
+                            d["fields"].append(t.id)
+            out[st.name] = d
+    return out
+
+
 class Model:
-    def __init__(self, root="/repo"):
+    def __init__(self, root="/repo", normalise=True):
         self.root = os.path.abspath(root)
+        self.renamed = {}      # live private name -> the name the references
+                               # are written against
         self.pkgdir = os.path.join(self.root, "src", "ZConfig")
         if not os.path.isdir(self.pkgdir):
             raise AnalysisError("no package directory %s" % self.pkgdir)
@@ -102,8 +151,87 @@ class Model:
         self.classes = {}
         self.functions = {}
         self._load()
+        if normalise:
+            self._alpha_normalise()
         self._index()
         self._mro_cache = {}
+
+    # ------------------------------------------------------- alpha-renaming
+    def _alpha_normalise(self):
+        """Undo a consistent rename of private members.  spec/names.json
+        lists, per class and module, the private names (by kind, in
+        definition order) the references are written against.  Where the live
+        code has the same number of members of a kind, the unchanged ones in
+        the same places, and the changed ones are names that neither the
+        table nor any reference or rule knows, the live names are mapped
+        back in the syntax trees (every attribute access and definition of
+        that name).  Anything else (members added, removed or reordered) is
+        left alone: the rules then report a vanished anchor."""
+        import json
+        path = os.path.join(os.path.dirname(os.path.dirname(
+            os.path.abspath(__file__))), "spec", "names.json")
+        try:
+            with open(path) as f:
+                table = json.load(f)
+        except OSError:
+            return
+        from .absint import spec_vocabulary
+        vocab = spec_vocabulary()
+        known = set()
+        for d in table.values():
+            for v in d.values():
+                known.update(v)
+        amap = {}      # attribute / method renames (global)
+        gmap = {}      # module name -> {global or function rename}
+        for modname, mod in self.modules.items():
+            live = private_members(mod.tree)
+            for cname, kinds in live.items():
+                want = table.get(modname + ("." + cname if cname else ""))
+                if want is None:
+                    continue
+                for kind, names in kinds.items():
+                    old = want.get(kind, [])
+                    if old == names or len(old) != len(names):
+                        continue
+                    pairs = [(o, n) for o, n in zip(old, names) if o != n]
+                    if any(o in names or n in old or n in vocab or n in known
+                           for o, n in pairs):
+                        continue
+                    for o, n in pairs:
+                        if cname:
+                            amap[n] = o
+                        else:
+                            gmap.setdefault(modname, {})[n] = o
+        if not amap and not gmap:
+            return
+        for modname, mod in self.modules.items():
+            for n in ast.walk(mod.tree):
+                if isinstance(n, ast.Attribute) and n.attr in amap:
+                    n.attr = amap[n.attr]
+                elif isinstance(n, (ast.FunctionDef, ast.AsyncFunctionDef)) \
+                        and n.name in amap:
+                    n.name = amap[n.name]
+                elif isinstance(n, ast.Name) and n.id in amap and isinstance(
+                        getattr(n, "_parent", None), ast.ClassDef):
+                    n.id = amap[n.id]
+            for mname, ren in gmap.items():
+                for n in ast.walk(mod.tree):
+                    if modname == mname:
+                        if isinstance(n, ast.Name) and n.id in ren:
+                            n.id = ren[n.id]
+                        elif isinstance(n, (ast.FunctionDef,
+                                            ast.AsyncFunctionDef)) \
+                                and n.name in ren:
+                            n.name = ren[n.name]
+                    if isinstance(n, ast.Attribute) and n.attr in ren \
+                            and (dotted(n.value) or "").endswith(
+                                mname.rsplit(".", 1)[-1]):
+                        n.attr = ren[n.attr]
+                    if isinstance(n, ast.alias) and n.name in ren:
+                        n.name = ren[n.name]
+        self.renamed = dict(amap)
+        for ren in gmap.values():
+            self.renamed.update(ren)
 
     # ------------------------------------------------------------------ load
     def _load(self):
